@@ -30,12 +30,13 @@ Definition node0 : node := mkNode [] None [] [].
 Definition replies (exec : hostmsg -> list retmsg) (f : frame) : list retmsg :=
   exec (snd f) ++ [RDone (fst f)].
 
-Definition nstep (exec : hostmsg -> list retmsg) (st : node) (op : nop) : node :=
+Definition nstep_gen (feed : bytes -> bytes -> list frame * bytes * status)
+  (exec : hostmsg -> list retmsg) (st : node) (op : nop) : node :=
   match op with
   | Open => mkNode (bufs st ++ [[]]) (Some (length (bufs st))) (outs st) (log st)
   | Data c d =>
       if c <? length (bufs st) then
-        let '(hs, r, _) := feed_fix (nth c (bufs st) []) d in
+        let '(hs, r, _) := feed (nth c (bufs st) []) d in
         match hp st with
         | Some t =>
             mkNode (upd (bufs st) c r) (hp st)
@@ -45,6 +46,11 @@ Definition nstep (exec : hostmsg -> list retmsg) (st : node) (op : nop) : node :
         end
       else st
   end.
+
+Definition nstep := nstep_gen feed_fix.
+(* the same node around the parser as found (only used to recognise the unrepaired tree) *)
+Definition nrun_cur (exec : hostmsg -> list retmsg) (ops : list nop) : node :=
+  fold_left (nstep_gen feed_cur exec) ops node0.
 
 Definition nrun (exec : hostmsg -> list retmsg) (ops : list nop) : node := fold_left (nstep exec) ops node0.
 
